@@ -17,7 +17,13 @@ namespace vh {
 
 struct Rng {
   uint64_t s;
-  explicit Rng(uint64_t seed) : s(seed * 0x9E3779B97F4A7C15ULL + 0x1234567ULL) {}
+  // the seed is hashed first: consecutive seeds must not give shifted copies of one stream
+  explicit Rng(uint64_t seed) : s(mix(mix(seed ^ 0xD1B54A32D192ED03ULL) + 0x9E3779B97F4A7C15ULL)) {}
+  static uint64_t mix(uint64_t z) {
+    z = (z ^ (z >> 30)) * 0xBF58476D1CE4E5B9ULL;
+    z = (z ^ (z >> 27)) * 0x94D049BB133111EBULL;
+    return z ^ (z >> 31);
+  }
   uint64_t next() {
     uint64_t z = (s += 0x9E3779B97F4A7C15ULL);
     z = (z ^ (z >> 30)) * 0xBF58476D1CE4E5B9ULL;
